@@ -379,6 +379,10 @@ def _work_decl(sc, ri):
 
 def _check_work(sc, ri, v: Verdict):
     form, decl = _work_decl(sc, ri)
+    if form == "dynamic":  # a work-wire spec function (or a dict with computed keys): decided symbolically
+        from .c11_work import check_dynamic
+
+        return check_dynamic(sc, ri, v)
     if not ri.allocs:
         if form == "literal" and any(decl.values()):
             v.work_v, v.work_detail = "unknown", "work wires declared, no allocate() found in the body (may allocate through an unresolved helper)"
@@ -444,6 +448,9 @@ def check(ctx):
              "measurement-conditioned operations count as their target; data-dependent emissions are ranges")
     rep.rule("R-C11-work", "allocate(n, state, restored) in a rule body requires work_wires= with the kind (zero,True)->zeroed, (any,True)->borrowed, "
              "(zero,False)->burnable, (any,False)->garbage and a literal count >= the wires held at once")
+    from .c11_work import describe
+
+    describe(rep)
     rep.assume("a callee that does not resolve to an operator class, a known wrapper or an inlinable helper of the package is effect-free; "
                "rules that call through such a value are marked unresolved and never refuted on counts")
     rep.assume("len(X), num_X and n_X denote the same quantity on the body side and the resource side (repository naming convention); "
